@@ -1,5 +1,989 @@
-use simkit::Outcome;
-pub const RULE_C10: &str = "todo";
-pub const RULE_C09: &str = "todo";
-pub fn run_c10() -> Outcome { todo!() }
-pub fn run_c09() -> Outcome { todo!() }
+//! E1 `symstream` — C09 and C10: the streaming symbol-file parser under every read schedule
+//! and under reader faults.
+//!
+//! Real `SymbolFile::parse` over `ChunkReader` (every read size a tape decision) and real
+//! `SymbolFile::parse_async` over a simulated HTTP body polled by the seeded executor.
+
+use crate::common::draw_delay;
+use crate::symgen::{self, Eol, SymOpts};
+use breakpad_symbols::{SymbolError, SymbolFile};
+use serde_json::json;
+use simkit::{ch, chance, probe, range, Exec, ExecConfig, Outcome, Policy, Stop, Violation};
+use std::cell::RefCell;
+use std::io::{self, Read};
+use std::rc::Rc;
+
+pub const RULE_C10: &str = "Each run draws from one tape: a symbol file from the record grammar (every record kind, LF/CRLF/CRCRLF/mixed endings, numeric extremes, long names up to 79 000 B, bulk filler to cross the 10/20/40/80/160 KiB buffer thresholds, optional byte-level corruption, last line terminated or not), and a chunk plan made of segments (full reads | 1-byte trickle | uniform 1-64 | geometric | threshold T+-3 for T in {5,10,20,40,80,160} KiB | structural cuts inside CRLF, right after/before a newline, inside a FUNC's sublines | one split at a uniformly drawn offset). The same bytes go through SymbolFile::parse over a ChunkReader and/or SymbolFile::parse_async over a simulated HTTP body (chunk sizes from the plan, 0-k Pending polls per chunk) and are compared with SymbolFile::from_bytes of the whole buffer. NON-TRIVIAL iff the streamed parse saw at least two reads/chunks that ended strictly inside the input and the input has at least two lines. DISTINCT = distinct (content digest, sequence of delivered chunk sizes) among non-trivial runs.";
+
+pub const RULE_C09: &str = "As C10's generator plus: lines of 1 B .. 2 MiB (thresholds 5K/10K/20K/40K/79K/80K/160K/320K/1M/2M +- delta), giant single lines of 2-8 MiB, files ending inside a long line, and reader faults (EINTR, EIO at a tape-chosen read, early clean EOF, one bit flipped / one chunk delivered twice / one chunk dropped; HTTP body reset or clean cut). Oracles per run: no panic; read calls <= 2*len+64; every buffer offered to the reader <= 160 KiB; peak live heap during the parse within a fixed window bound when the retained result is tiny; LoadError only if a reader error was injected and then always; the callback's bytes are a prefix of the delivered stream; with all delivered lines < 79 000 B the outcome equals from_bytes(delivered); an inserted line >= 400 KiB is dropped and the result equals the parse of the file without it. NON-TRIVIAL iff the run exercised buffer growth, recovery, or a fired reader fault. DISTINCT = distinct (content digest, delivered chunk sizes, fault) among non-trivial runs.";
+
+pub const LINE_LIMIT: usize = 79_000;
+const MAX_BUFFER: usize = 160 * 1024;
+
+// ---------------------------------------------------------------------------------------------
+// chunk plans
+
+#[derive(Clone, Debug, PartialEq)]
+pub enum PlanKind {
+    Full,
+    Trickle1,
+    Uniform64,
+    Geometric,
+    Threshold(usize),
+    /// End reads exactly at these stream offsets (sorted).
+    Cuts(Vec<usize>),
+}
+
+#[derive(Clone, Debug)]
+pub struct ChunkPlan {
+    /// (segment end offset, kind); the last segment extends to the end of the stream.
+    pub segments: Vec<(usize, PlanKind)>,
+}
+
+fn structural_candidates(data: &[u8]) -> Vec<usize> {
+    // offsets at which a read may *end* (i.e. number of bytes delivered so far)
+    let mut c = Vec::new();
+    for (i, &b) in data.iter().enumerate() {
+        if b == b'\n' {
+            if i > 0 && data[i - 1] == b'\r' {
+                c.push(i); // between \r and \n
+            }
+            c.push(i + 1); // right after the newline
+            if i > 0 {
+                c.push(i); // right before the newline
+            }
+        }
+    }
+    c.sort();
+    c.dedup();
+    c
+}
+
+fn draw_kind(data: &[u8], allow_slow: bool) -> PlanKind {
+    let k = ch("plan.kind", if allow_slow { 7 } else { 5 });
+    match k {
+        0 => PlanKind::Full,
+        1 => PlanKind::Geometric,
+        2 => {
+            const T: [usize; 9] = [10 * 1024, 5 * 1024, 20 * 1024, 40 * 1024, 80 * 1024, 160 * 1024, 2560, 10 * 1024 + 1, 20 * 1024 - 1];
+            PlanKind::Threshold(T[ch("plan.threshold", T.len() as u32) as usize])
+        }
+        3 | 4 => {
+            let cands = structural_candidates(data);
+            let mut cuts = Vec::new();
+            if k == 3 && !cands.is_empty() {
+                let n = 1 + ch("plan.cuts.n", 6);
+                for _ in 0..n {
+                    cuts.push(cands[ch("plan.cuts.pick", cands.len() as u32) as usize]);
+                }
+            } else if !data.is_empty() {
+                // one split at a uniformly drawn offset
+                cuts.push(range("plan.split", 0, data.len() as u64) as usize);
+            }
+            cuts.sort();
+            cuts.dedup();
+            PlanKind::Cuts(cuts)
+        }
+        5 => PlanKind::Uniform64,
+        _ => PlanKind::Trickle1,
+    }
+}
+
+pub fn draw_plan(data: &[u8]) -> ChunkPlan {
+    let len = data.len();
+    let small = len <= 64 * 1024;
+    let nseg = 1 + ch("plan.nseg", 3) as usize;
+    let mut segments = Vec::new();
+    let mut at = 0usize;
+    for s in 0..nseg {
+        let last = s + 1 == nseg;
+        let mut kind = draw_kind(data, true);
+        let slow = matches!(kind, PlanKind::Trickle1 | PlanKind::Uniform64);
+        let end = if last && !(slow && !small) {
+            usize::MAX
+        } else if slow && !small {
+            // slow plans cost O(window x pending line): confine them to a window
+            let w = range("plan.window", 1, 8 * 1024) as usize;
+            (at + w).min(len)
+        } else {
+            range("plan.segend", at as u64, len as u64) as usize
+        };
+        if let PlanKind::Cuts(c) = &kind {
+            if c.is_empty() {
+                kind = PlanKind::Full;
+            }
+        }
+        if kind == PlanKind::Trickle1 {
+            probe("e1.trickle");
+        }
+        segments.push((end, kind));
+        if end == usize::MAX {
+            break;
+        }
+        at = end;
+    }
+    if segments.last().map(|s| s.0) != Some(usize::MAX) {
+        segments.push((usize::MAX, PlanKind::Full));
+    }
+    ChunkPlan { segments }
+}
+
+impl ChunkPlan {
+    pub fn full() -> ChunkPlan {
+        ChunkPlan {
+            segments: vec![(usize::MAX, PlanKind::Full)],
+        }
+    }
+    /// Desired size of the next read/chunk at stream offset `pos` (before clamping).
+    fn desired(&self, pos: usize, remaining: usize) -> usize {
+        let mut seg_end = usize::MAX;
+        let mut kind = &PlanKind::Full;
+        for (end, k) in &self.segments {
+            if pos < *end {
+                seg_end = *end;
+                kind = k;
+                break;
+            }
+        }
+        let want = match kind {
+            PlanKind::Full => remaining,
+            PlanKind::Trickle1 => 1,
+            PlanKind::Uniform64 => 1 + ch("read.u64", 64) as usize,
+            PlanKind::Geometric => 1usize << ch("read.geo", 18),
+            PlanKind::Threshold(t) => (*t + ch("read.thr", 7) as usize).saturating_sub(3).max(1),
+            PlanKind::Cuts(c) => match c.iter().find(|&&x| x > pos) {
+                Some(&x) => x - pos,
+                None => remaining,
+            },
+        };
+        let to_seg_end = seg_end.saturating_sub(pos).max(1);
+        want.min(to_seg_end).max(1)
+    }
+    pub fn describe(&self) -> serde_json::Value {
+        json!(self
+            .segments
+            .iter()
+            .map(|(e, k)| format!(
+                "{}..{}",
+                match k {
+                    PlanKind::Cuts(c) => format!("cuts{:?}", c),
+                    k => format!("{:?}", k),
+                },
+                if *e == usize::MAX { "end".to_string() } else { e.to_string() }
+            ))
+            .collect::<Vec<_>>())
+    }
+}
+
+// ---------------------------------------------------------------------------------------------
+// faults
+
+#[derive(Clone, Debug, PartialEq)]
+pub enum Fault {
+    None,
+    /// `Err(Interrupted)` at read number n.
+    Eintr(u32),
+    /// `Err(Other)` at read number n.
+    Eio(u32),
+    /// Clean EOF after `k` bytes.
+    EarlyEof(usize),
+    /// Flip one bit of the byte at offset k.
+    Flip(usize, u8),
+    /// Deliver chunk n twice.
+    Dup(u32),
+    /// Skip chunk n.
+    Drop(u32),
+}
+
+pub fn draw_fault(len: usize) -> Fault {
+    let nread = ch("fault.at", 12);
+    match ch("fault.kind", 7) {
+        0 => Fault::None,
+        1 => Fault::Eintr(nread),
+        2 => Fault::Eio(nread),
+        3 => Fault::EarlyEof(range("fault.eof", 0, len as u64) as usize),
+        4 => Fault::Flip(range("fault.flip", 0, len.saturating_sub(1) as u64) as usize, ch("fault.bit", 8) as u8),
+        5 => Fault::Dup(nread),
+        _ => Fault::Drop(nread),
+    }
+}
+
+pub struct ReaderLog {
+    pub reads: u64,
+    pub max_offered: usize,
+    pub delivered: Vec<u8>,
+    pub sizes: Vec<u32>,
+    pub hard_error_returned: bool,
+    pub eintr_returned: bool,
+    pub fault_fired: bool,
+    pub budget_exceeded: bool,
+    pub interior_ends: u32,
+}
+
+pub struct ChunkReader {
+    data: Rc<Vec<u8>>,
+    pos: usize,
+    plan: ChunkPlan,
+    fault: Fault,
+    budget: u64,
+    pub log: Rc<RefCell<ReaderLog>>,
+    record_delivered: bool,
+}
+
+impl ChunkReader {
+    pub fn new(data: Rc<Vec<u8>>, plan: ChunkPlan, fault: Fault, record_delivered: bool) -> ChunkReader {
+        let budget = 2 * data.len() as u64 + 64;
+        ChunkReader {
+            data,
+            pos: 0,
+            plan,
+            fault,
+            budget,
+            log: Rc::new(RefCell::new(ReaderLog {
+                reads: 0,
+                max_offered: 0,
+                delivered: Vec::new(),
+                sizes: Vec::new(),
+                hard_error_returned: false,
+                eintr_returned: false,
+                fault_fired: false,
+                budget_exceeded: false,
+                interior_ends: 0,
+            })),
+            record_delivered,
+        }
+    }
+}
+
+impl Read for ChunkReader {
+    fn read(&mut self, buf: &mut [u8]) -> io::Result<usize> {
+        let mut log = self.log.borrow_mut();
+        log.reads += 1;
+        log.max_offered = log.max_offered.max(buf.len());
+        if log.reads > self.budget {
+            log.budget_exceeded = true;
+            return Err(io::Error::other("harness: read budget exceeded"));
+        }
+        let n = log.reads as u32;
+        match self.fault {
+            Fault::Eintr(k) if k + 1 == n => {
+                log.eintr_returned = true;
+                log.fault_fired = true;
+                probe("e1.fault.eintr");
+                return Err(io::Error::from(io::ErrorKind::Interrupted));
+            }
+            Fault::Eio(k) if k + 1 == n => {
+                log.hard_error_returned = true;
+                log.fault_fired = true;
+                probe("e1.fault.eio");
+                return Err(io::Error::other("injected EIO"));
+            }
+            _ => {}
+        }
+        let mut end = self.data.len();
+        if let Fault::EarlyEof(k) = self.fault {
+            end = end.min(k);
+        }
+        if buf.is_empty() || self.pos >= end {
+            if self.pos >= end && end < self.data.len() && !log.fault_fired {
+                log.fault_fired = true;
+                probe("e1.fault.early_eof");
+            }
+            return Ok(0);
+        }
+        let remaining = end - self.pos;
+        let want = self.plan.desired(self.pos, remaining);
+        let mut size = want.min(remaining).min(buf.len()).max(1);
+        // chunk-level faults apply to non-empty reads
+        let chunk_no = log.sizes.len() as u32;
+        match self.fault {
+            Fault::Drop(k) if k == chunk_no && self.pos + size < end => {
+                // skip this chunk's bytes entirely, deliver the next ones
+                self.pos += size;
+                log.fault_fired = true;
+                probe("e1.fault.drop");
+                let remaining = end - self.pos;
+                size = self.plan.desired(self.pos, remaining).min(remaining).min(buf.len()).max(1);
+            }
+            _ => {}
+        }
+        buf[..size].copy_from_slice(&self.data[self.pos..self.pos + size]);
+        if let Fault::Flip(off, bit) = self.fault {
+            if off >= self.pos && off < self.pos + size {
+                buf[off - self.pos] ^= 1 << bit;
+                log.fault_fired = true;
+                probe("e1.fault.flip");
+            }
+        }
+        if self.record_delivered {
+            log.delivered.extend_from_slice(&buf[..size]);
+        }
+        log.sizes.push(size as u32);
+        let dup = matches!(self.fault, Fault::Dup(k) if k == chunk_no);
+        if dup {
+            // deliver the same bytes again on the next read: do not advance
+            self.fault = Fault::None;
+            log.fault_fired = true;
+            probe("e1.fault.dup");
+        } else {
+            self.pos += size;
+        }
+        if self.pos < self.data.len() {
+            log.interior_ends += 1;
+        }
+        Ok(size)
+    }
+}
+
+// ---------------------------------------------------------------------------------------------
+// content
+
+pub struct Content {
+    pub bytes: Vec<u8>,
+    pub longest: usize,
+    pub lines: usize,
+    pub terminated: bool,
+    pub describe: serde_json::Value,
+}
+
+fn bulk_filler(target: usize) -> Vec<Vec<u8>> {
+    // cheap in tape cells: one seed
+    let seed = ch("bulk.seed", u32::MAX) as u64;
+    let mut r = simkit::rng::Xoshiro::new(seed);
+    let mut out = Vec::new();
+    let mut total = 0;
+    let mut addr = 0x100000u64;
+    while total < target {
+        let nlen = 4 + r.below(60) as usize;
+        let mut l = format!("PUBLIC {:x} {:x} ", addr, r.below(32)).into_bytes();
+        for _ in 0..nlen {
+            l.push(b'a' + r.below(26) as u8);
+        }
+        addr += 1 + r.below(64) as u64;
+        total += l.len() + 1;
+        out.push(l);
+    }
+    out
+}
+
+pub fn draw_content(for_c09: bool) -> Content {
+    let size_class = ch("content.size", 10); // 0..3 small, 4,5 medium, 6 large, 7..9 long lines
+    let mut opts = SymOpts::default();
+    let max_long = if for_c09 { 2 << 20 } else { LINE_LIMIT - 8 };
+    match size_class {
+        0..=3 => opts.max_records = 12,
+        4 | 5 => opts.max_records = 60,
+        6 => opts.max_records = 30,
+        7 => {
+            opts.max_records = 10;
+            opts.long_lines = true;
+            opts.max_long = max_long;
+        }
+        _ => {
+            // several long lines: drives the buffer through its growth steps
+            opts.max_records = 8;
+            opts.long_lines = true;
+            opts.long_den = 2;
+            opts.max_long = max_long;
+        }
+    }
+    if for_c09 && chance("content.c09.longer", 1, 3) {
+        opts.long_lines = true;
+        opts.max_long = max_long;
+    }
+    let mut doc = symgen::gen_doc(&opts);
+    if size_class >= 4 {
+        // bulk filler so that the buffer has to shift / grow naturally
+        let target = match size_class {
+            4 => range("content.bulk", 2_000, 30_000),
+            5 => range("content.bulk", 8_000, 60_000),
+            6 => range("content.bulk", 60_000, 400_000),
+            _ => range("content.bulk", 0, 20_000),
+        } as usize;
+        let filler = bulk_filler(target);
+        let at = range("content.bulk.at", 1.min(doc.lines.len() as u64), doc.lines.len() as u64) as usize;
+        // never split a multi-line record with filler in a way that changes meaning for the
+        // reference: the reference sees the same bytes, so any position is fair.
+        let tail = doc.lines.split_off(at);
+        doc.lines.extend(filler);
+        doc.lines.extend(tail);
+    }
+    let eol = symgen::draw_eol();
+    let terminated = !chance("content.unterminated", 1, 6);
+    if !terminated {
+        probe("e1.unterminated_last_line");
+    }
+    let (mut bytes, _starts) = symgen::render(&doc, eol, terminated);
+    let corrupted = chance("content.corrupt", 1, 5);
+    if corrupted {
+        symgen::corrupt(&mut bytes);
+    }
+    let longest = symgen::longest_line(&bytes);
+    let lines = bytes.iter().filter(|&&b| b == b'\n').count() + 1;
+    let terminated = bytes.last() == Some(&b'\n') || bytes.is_empty();
+    let preview: String = bytes.iter().take(400).flat_map(|&b| std::ascii::escape_default(b)).map(|b| b as char).collect();
+    Content {
+        describe: json!({"preview": preview, "len": bytes.len(), "lines": lines, "longest_line": longest, "eol": format!("{:?}", eol), "last_line_terminated": terminated, "corrupted": corrupted, "size_class": size_class}),
+        bytes,
+        longest,
+        lines,
+        terminated,
+    }
+}
+
+// ---------------------------------------------------------------------------------------------
+// running the parsers
+
+pub struct Streamed {
+    pub result: Result<SymbolFile, SymbolError>,
+    pub callback_ok: Result<(), String>,
+    pub callback_total: usize,
+    pub sizes: Vec<u32>,
+    pub reads: u64,
+    pub max_offered: usize,
+    pub delivered: Option<Vec<u8>>,
+    pub hard_error: bool,
+    pub eintr: bool,
+    pub fault_fired: bool,
+    pub budget_exceeded: bool,
+    pub interior_ends: u32,
+    pub peak_window: isize,
+    pub steps: u64,
+}
+
+/// Checks incrementally that the callback's slices concatenate to a prefix of `expect`.
+struct PrefixCheck {
+    expect: Rc<RefCell<Vec<u8>>>,
+    fixed: Option<Rc<Vec<u8>>>,
+    at: usize,
+    err: Option<String>,
+}
+impl PrefixCheck {
+    fn feed(&mut self, data: &[u8]) {
+        if self.err.is_some() {
+            return;
+        }
+        let ok = if let Some(f) = &self.fixed {
+            f.len() >= self.at + data.len() && &f[self.at..self.at + data.len()] == data
+        } else {
+            let e = self.expect.borrow();
+            e.len() >= self.at + data.len() && &e[self.at..self.at + data.len()] == data
+        };
+        if !ok {
+            self.err = Some(format!("callback bytes diverge from the delivered stream at offset {}", self.at));
+        }
+        self.at += data.len();
+    }
+}
+
+pub fn parse_sync(data: Rc<Vec<u8>>, plan: ChunkPlan, fault: Fault) -> Streamed {
+    let faulty = fault != Fault::None;
+    let reader = ChunkReader::new(data.clone(), plan, fault, faulty);
+    let log = reader.log.clone();
+    // The delivered stream is only materialised under faults; otherwise it is `data`.
+    let mut pc = PrefixCheck {
+        expect: Rc::new(RefCell::new(Vec::new())),
+        fixed: if faulty { None } else { Some(data.clone()) },
+        at: 0,
+        err: None,
+    };
+    let log2 = log.clone();
+    simkit::alloc::reset_peak();
+    let live_before = simkit::alloc::live();
+    let result = SymbolFile::parse(reader, |bytes| {
+        if pc.fixed.is_some() {
+            pc.feed(bytes);
+        } else {
+            // compare against what the reader has delivered so far
+            let l = log2.borrow();
+            let ok = l.delivered.len() >= pc.at + bytes.len() && &l.delivered[pc.at..pc.at + bytes.len()] == bytes;
+            if !ok && pc.err.is_none() {
+                pc.err = Some(format!("callback bytes diverge from the delivered stream at offset {}", pc.at));
+            }
+            pc.at += bytes.len();
+        }
+    });
+    let peak = simkit::alloc::peak();
+    let live_after = simkit::alloc::live();
+    let l = log.borrow();
+    Streamed {
+        result,
+        callback_ok: match pc.err {
+            Some(e) => Err(e),
+            None => Ok(()),
+        },
+        callback_total: pc.at,
+        sizes: l.sizes.clone(),
+        reads: l.reads,
+        max_offered: l.max_offered,
+        delivered: if faulty { Some(l.delivered.clone()) } else { None },
+        hard_error: l.hard_error_returned,
+        eintr: l.eintr_returned,
+        fault_fired: l.fault_fired,
+        budget_exceeded: l.budget_exceeded,
+        interior_ends: l.interior_ends,
+        peak_window: peak - live_before.max(live_after),
+        steps: 0,
+    }
+}
+
+#[derive(Clone, Copy, Debug, PartialEq)]
+pub enum BodyFault {
+    None,
+    Reset(usize),
+    CleanCut(usize),
+}
+
+pub fn parse_async(data: Rc<Vec<u8>>, plan: &ChunkPlan, fault: BodyFault) -> Result<Streamed, Violation> {
+    probe("e1.async_path");
+    // chunk sizes from the plan (no buffer-space clamp: HTTP chunks are what the wire delivers)
+    let end = match fault {
+        BodyFault::None => data.len(),
+        BodyFault::Reset(k) | BodyFault::CleanCut(k) => k.min(data.len()),
+    };
+    let mut sizes = Vec::new();
+    let mut pos = 0;
+    while pos < end {
+        let s = plan.desired(pos, end - pos).min(end - pos).max(1);
+        sizes.push(s);
+        pos += s;
+    }
+    let delays: Vec<u64> = sizes
+        .iter()
+        .map(|_| if chance("async.pending", 1, 3) { 1_000 + draw_delay("async.delay") } else { 0 })
+        .collect();
+    let body = data[..end].to_vec();
+    let delivered = body.clone();
+    let mut p = reqwest::sim::Plan::ok(body);
+    p.chunks = sizes.clone();
+    p.chunk_delays = delays;
+    p.end = match fault {
+        BodyFault::Reset(_) => reqwest::sim::BodyEnd::Reset,
+        _ => reqwest::sim::BodyEnd::Clean,
+    };
+    p.end_delay = if chance("async.end_pending", 1, 3) { 5_000 } else { 0 };
+    reqwest::sim::install(|_| reqwest::sim::Plan::status(500));
+    let resp = reqwest::sim::response_from_plan("http://sym.example/x.sym", p);
+    let out: Rc<RefCell<Option<Result<SymbolFile, SymbolError>>>> = Rc::new(RefCell::new(None));
+    let pcs = Rc::new(RefCell::new(PrefixCheck {
+        expect: Rc::new(RefCell::new(Vec::new())),
+        fixed: Some(Rc::new(delivered.clone())),
+        at: 0,
+        err: None,
+    }));
+    let cfg = ExecConfig {
+        policy: Policy::Fifo,
+        spurious_den: [0u32, 8, 2][ch("async.spurious", 3) as usize],
+        time_pass_den: 0,
+        step_budget: 4 * sizes.len() as u64 + 4 * data.len() as u64 + 1000,
+        ..ExecConfig::default()
+    };
+    let mut ex = Exec::new(cfg);
+    let out2 = out.clone();
+    let pcs2 = pcs.clone();
+    ex.spawn("parse_async", async move {
+        let r = SymbolFile::parse_async(resp, |bytes| pcs2.borrow_mut().feed(bytes)).await;
+        *out2.borrow_mut() = Some(r);
+    });
+    let stop = ex.run(|_, _| Ok(()))?;
+    match stop {
+        Stop::AllDone => {}
+        Stop::Deadlock(_) => return Err(Violation::new("c09.async_deadlock", "parse_async never completed although the whole body was delivered (lost wake-up)")),
+        Stop::Budget => return Err(Violation::new("c09.async_livelock", "parse_async exceeded the step budget")),
+    }
+    let snaps = reqwest::sim::snapshots();
+    let snap = snaps.last().unwrap();
+    let result = out.borrow_mut().take().expect("task finished");
+    let pc = pcs.borrow();
+    let interior = sizes.len().saturating_sub(1) as u32;
+    Ok(Streamed {
+        result,
+        callback_ok: match &pc.err {
+            Some(e) => Err(e.clone()),
+            None => Ok(()),
+        },
+        callback_total: pc.at,
+        sizes: sizes.iter().map(|&s| s as u32).collect(),
+        reads: sizes.len() as u64,
+        max_offered: 0,
+        delivered: Some(snap.delivered.clone()),
+        hard_error: matches!(fault, BodyFault::Reset(_)) && snap.saw_err,
+        eintr: false,
+        fault_fired: fault != BodyFault::None,
+        budget_exceeded: false,
+        interior_ends: interior,
+        peak_window: 0,
+        steps: ex.steps,
+    })
+}
+
+fn same_outcome(a: &Result<SymbolFile, SymbolError>, b: &Result<SymbolFile, SymbolError>) -> Result<(), String> {
+    match (a, b) {
+        (Ok(x), Ok(y)) => {
+            if x == y {
+                Ok(())
+            } else {
+                Err(format!(
+                    "both parses succeed but the tables differ (functions {} vs {}, publics {} vs {}, cfi {} vs {}, win {}+{} vs {}+{}, files {} vs {}, url {:?} vs {:?})",
+                    x.functions.ranges_values().count(),
+                    y.functions.ranges_values().count(),
+                    x.publics.len(),
+                    y.publics.len(),
+                    x.cfi_stack_info.ranges_values().count(),
+                    y.cfi_stack_info.ranges_values().count(),
+                    x.win_stack_framedata_info.ranges_values().count(),
+                    x.win_stack_fpo_info.ranges_values().count(),
+                    y.win_stack_framedata_info.ranges_values().count(),
+                    y.win_stack_fpo_info.ranges_values().count(),
+                    x.files.len(),
+                    y.files.len(),
+                    x.url.is_some(),
+                    y.url.is_some(),
+                ))
+            }
+        }
+        (Err(_), Err(_)) => Ok(()),
+        (Ok(_), Err(e)) => Err(format!("streamed parse succeeds, whole-buffer parse fails ({})", err_class(e))),
+        (Err(e), Ok(_)) => Err(format!("streamed parse fails ({}), whole-buffer parse succeeds", err_class(e))),
+    }
+}
+
+fn err_class(e: &SymbolError) -> String {
+    match e {
+        SymbolError::NotFound => "NotFound".into(),
+        SymbolError::MissingDebugFileOrId => "MissingDebugFileOrId".into(),
+        SymbolError::LoadError(_) => "LoadError".into(),
+        SymbolError::ParseError(m, _) => format!("ParseError: {m}"),
+    }
+}
+
+fn count_growth_probes(max_offered: usize) {
+    if max_offered > 10 * 1024 {
+        probe("e1.grow_20k");
+    }
+    if max_offered > 20 * 1024 {
+        probe("e1.grow_40k");
+    }
+    if max_offered > 40 * 1024 {
+        probe("e1.grow_80k");
+    }
+    if max_offered > 80 * 1024 {
+        probe("e1.grow_160k");
+    }
+}
+
+fn split_in_crlf(data: &[u8], sizes: &[u32]) -> bool {
+    let mut pos = 0usize;
+    for &s in sizes {
+        pos += s as usize;
+        if pos < data.len() && pos > 0 && data[pos] == b'\n' && data[pos - 1] == b'\r' {
+            return true;
+        }
+    }
+    false
+}
+
+// ---------------------------------------------------------------------------------------------
+// C10
+
+pub fn run_c10() -> Outcome {
+    let content = draw_content(false);
+    let data = Rc::new(content.bytes);
+    let plan = draw_plan(&data);
+    let path = ch("c10.path", 3); // 0 sync, 1 async, 2 both
+    let reference = SymbolFile::from_bytes(&data);
+    let in_scope = content.longest < LINE_LIMIT;
+    let path_name = ["sync", "async", "both"][path as usize];
+    let mut info = json!({"content": content.describe, "plan": plan.describe(), "path": path_name, "reference": match &reference { Ok(_) => "Ok".to_string(), Err(e) => err_class(e) }});
+    let mut all_sizes: Vec<u32> = Vec::new();
+    let mut interior = 0;
+
+    let result = (|| -> simkit::Check {
+        let mut outcomes: Vec<(&'static str, Streamed)> = Vec::new();
+        if path == 0 || path == 2 {
+            outcomes.push(("sync", parse_sync(data.clone(), plan.clone(), Fault::None)));
+        }
+        if path == 1 || path == 2 {
+            outcomes.push(("async", parse_async(data.clone(), &plan, BodyFault::None)?));
+        }
+        for (name, s) in &outcomes {
+            all_sizes.extend_from_slice(&s.sizes);
+            all_sizes.push(u32::MAX);
+            interior = interior.max(s.interior_ends);
+            count_growth_probes(s.max_offered);
+            if split_in_crlf(&data, &s.sizes) {
+                probe("e1.split_in_crlf");
+            }
+            simkit::ensure!(!s.budget_exceeded, "c10.read_budget", "{} parse called read more than 2*len+64 times", name);
+            // (b) prefix clause: always
+            if let Err(e) = &s.callback_ok {
+                return Err(Violation::new("c10.callback_not_prefix", format!("{name}: {}", normalise(e))));
+            }
+            if s.result.is_ok() {
+                simkit::ensure!(
+                    s.callback_total == data.len(),
+                    "c10.callback_incomplete",
+                    "{}: parse succeeded but the callback saw {} the input",
+                    name,
+                    if s.callback_total < data.len() { "less than" } else { "more than" }
+                );
+            }
+            // (a) same outcome as the whole-buffer parse, for inputs inside the quantifier
+            if in_scope {
+                if let Err(e) = same_outcome(&s.result, &reference) {
+                    let tail = if content.terminated { "" } else { " [input's last line is not newline-terminated]" };
+                    return Err(Violation::new("c10.outcome_differs", format!("{name}: {e}{tail}")));
+                }
+            }
+        }
+        if outcomes.len() == 2 && in_scope {
+            if let Err(e) = same_outcome(&outcomes[0].1.result, &outcomes[1].1.result) {
+                return Err(Violation::new("c10.sync_async_differ", e));
+            }
+        }
+        info["streamed"] = json!(outcomes.iter().map(|(n, s)| json!({"path": n, "reads_or_chunks": s.reads, "outcome": match &s.result { Ok(_) => "Ok".to_string(), Err(e) => err_class(e) }, "max_buffer_offered": s.max_offered})).collect::<Vec<_>>());
+        Ok(())
+    })();
+
+    let key = simkit::rng::mix(&[crate::common::fnv(&data), crate::common::fnv(&all_sizes.iter().flat_map(|s| s.to_le_bytes()).collect::<Vec<u8>>())]);
+    Outcome {
+        result,
+        nontrivial: interior >= 2 && content.lines >= 2,
+        key,
+        info,
+    }
+}
+
+fn normalise(s: &str) -> String {
+    s.chars().map(|c| if c.is_ascii_digit() { '#' } else { c }).collect()
+}
+
+// ---------------------------------------------------------------------------------------------
+// C09
+
+pub fn run_c09() -> Outcome {
+    let scenario = ch("c09.scenario", 8);
+    match scenario {
+        0 | 1 => c09_long_line_dropped(),
+        2 => c09_giant_line(),
+        _ => c09_general(),
+    }
+}
+
+fn window_bound(len: usize, retained_small: bool) -> isize {
+    if retained_small {
+        1 << 20
+    } else {
+        (1 << 20) + 64 * len as isize
+    }
+}
+
+fn c09_general() -> Outcome {
+    let content = draw_content(true);
+    let data = Rc::new(content.bytes);
+    let plan = draw_plan(&data);
+    let use_async = chance("c09.async", 1, 4);
+    let mut info = json!({"scenario": "general", "content": content.describe, "plan": plan.describe()});
+    let mut nontrivial = false;
+    let mut keyparts: Vec<u8> = Vec::new();
+    let result = (|| -> simkit::Check {
+        let s = if use_async {
+            let bf = match ch("c09.bodyfault", 3) {
+                0 => BodyFault::None,
+                1 => BodyFault::Reset(range("c09.reset_at", 0, data.len() as u64) as usize),
+                _ => BodyFault::CleanCut(range("c09.cut_at", 0, data.len() as u64) as usize),
+            };
+            info["fault"] = json!(format!("{:?}", bf));
+            let s = parse_async(data.clone(), &plan, bf)?;
+            if s.hard_error {
+                probe("e1.fault.body_reset");
+            }
+            s
+        } else {
+            let fault = draw_fault(data.len());
+            info["fault"] = json!(format!("{:?}", fault));
+            parse_sync(data.clone(), plan.clone(), fault)
+        };
+        count_growth_probes(s.max_offered);
+        keyparts.extend(s.sizes.iter().flat_map(|x| x.to_le_bytes()));
+        info["outcome"] = json!(match &s.result { Ok(_) => "Ok".to_string(), Err(e) => err_class(e) });
+        info["reads_or_chunks"] = json!(s.reads);
+        info["max_buffer_offered"] = json!(s.max_offered);
+        info["peak_window_bytes"] = json!(s.peak_window);
+        nontrivial = s.fault_fired || s.max_offered > 10 * 1024;
+        // 2. terminates
+        simkit::ensure!(!s.budget_exceeded, "c09.read_budget", "read was called more than 2*len+64 times (the parser does not make progress)");
+        // 3. bounded window
+        simkit::ensure!(s.max_offered <= MAX_BUFFER, "c09.buffer_cap", "a buffer larger than 160 KiB was offered to the reader");
+        let delivered: &[u8] = s.delivered.as_deref().unwrap_or(&data);
+        if !use_async {
+            let bound = window_bound(delivered.len(), false);
+            simkit::ensure!(s.peak_window <= bound, "c09.memory_window", "peak live heap during the parse exceeded 1 MiB + 64 x input length");
+        }
+        // 4. outcome class
+        match &s.result {
+            Err(SymbolError::LoadError(_)) => {
+                simkit::ensure!(s.hard_error || s.eintr, "c09.load_error_without_fault", "LoadError although the reader never failed");
+            }
+            Err(SymbolError::ParseError(..)) | Ok(_) => {
+                simkit::ensure!(!s.hard_error, "c09.reader_error_swallowed", "the reader returned an error but the parse did not report LoadError");
+            }
+            Err(e) => return Err(Violation::new("c09.outcome_class", format!("unexpected error class {}", err_class(e)))),
+        }
+        // 6. callback prefix
+        if let Err(e) = &s.callback_ok {
+            return Err(Violation::new("c09.callback_not_prefix", normalise(e)));
+        }
+        // relaxed equality: with every delivered line inside the limit, outcome == from_bytes(delivered)
+        if !s.hard_error && !s.eintr && symgen::longest_line(delivered) < LINE_LIMIT {
+            let reference = SymbolFile::from_bytes(delivered);
+            if let Err(e) = same_outcome(&s.result, &reference) {
+                let term = delivered.last() == Some(&b'\n') || delivered.is_empty();
+                let tail = if term { "" } else { " [delivered stream's last line is not newline-terminated]" };
+                return Err(Violation::new("c09.outcome_differs_from_delivered", format!("{e}{tail}")));
+            }
+        }
+        Ok(())
+    })();
+    let key = simkit::rng::mix(&[crate::common::fnv(&data), crate::common::fnv(&keyparts), crate::common::fnv(info["fault"].to_string().as_bytes())]);
+    Outcome {
+        result,
+        nontrivial,
+        key,
+        info,
+    }
+}
+
+/// Oracle 5: an over-long line is dropped, not fatal, and changes nothing else.
+fn c09_long_line_dropped() -> Outcome {
+    // a base file that parses
+    let mut opts = SymOpts::default();
+    opts.fatal_lines = false;
+    opts.max_records = 14;
+    let mut doc = symgen::gen_doc(&opts);
+    if chance("c09.ll.bulk", 1, 3) {
+        let filler = bulk_filler(range("c09.ll.bulk.size", 1000, 200_000) as usize);
+        doc.lines.extend(filler);
+    }
+    let eol = symgen::draw_eol();
+    let (base, starts) = symgen::render(&doc, eol, true);
+    let base_parse = SymbolFile::from_bytes(&base);
+    let mut info = json!({"scenario": "over-long line dropped", "base_len": base.len(), "base_lines": doc.lines.len()});
+    let Ok(base_table) = base_parse else {
+        // numeric extremes may make the base fail (e.g. a 17-digit address): nothing to compare
+        return Outcome {
+            result: Ok(()),
+            nontrivial: false,
+            key: 0,
+            info,
+        };
+    };
+    // insert one line >= 400 KiB after the first line
+    let long_len = range("c09.ll.len", 400 * 1024, 1200 * 1024) as usize;
+    let at_line = range("c09.ll.at", 1, doc.lines.len().max(1) as u64) as usize;
+    let at = if at_line >= starts.len() { base.len() } else { starts[at_line] };
+    let mut long = match ch("c09.ll.kind", 3) {
+        0 => b"FUNC 1000 10 0 ".to_vec(),
+        1 => b"STACK CFI INIT 1000 10 .cfa: ".to_vec(),
+        _ => Vec::new(),
+    };
+    let fill = symgen::name("c09.ll.fill", 64);
+    while long.len() < long_len {
+        long.extend_from_slice(&fill);
+    }
+    long.truncate(long_len);
+    match eol {
+        Eol::CrLf => long.extend_from_slice(b"\r\n"),
+        _ => long.push(b'\n'),
+    }
+    let mut with = base[..at].to_vec();
+    with.extend_from_slice(&long);
+    with.extend_from_slice(&base[at..]);
+    let data = Rc::new(with);
+    let plan = draw_plan(&data);
+    info["long_line_len"] = json!(long_len);
+    info["inserted_before_line"] = json!(at_line);
+    info["plan"] = plan.describe();
+    let mut keyparts = Vec::new();
+    let result = (|| -> simkit::Check {
+        let s = if chance("c09.ll.async", 1, 4) { parse_async(data.clone(), &plan, BodyFault::None)? } else { parse_sync(data.clone(), plan.clone(), Fault::None) };
+        keyparts.extend(s.sizes.iter().flat_map(|x| x.to_le_bytes()));
+        probe("e1.recovery_entered");
+        simkit::ensure!(!s.budget_exceeded, "c09.read_budget", "read was called more than 2*len+64 times (the parser does not make progress)");
+        simkit::ensure!(s.max_offered <= MAX_BUFFER, "c09.buffer_cap", "a buffer larger than 160 KiB was offered to the reader");
+        if let Err(e) = &s.callback_ok {
+            return Err(Violation::new("c09.callback_not_prefix", normalise(e)));
+        }
+        match &s.result {
+            Ok(t) => {
+                simkit::ensure!(t == &base_table, "c09.long_line_changes_table", "dropping the over-long line changed the rest of the table");
+                simkit::ensure!(s.callback_total == data.len(), "c09.callback_incomplete", "parse succeeded but the callback did not see the whole input");
+                probe("e1.long_line_dropped_ok");
+                Ok(())
+            }
+            Err(e) => Err(Violation::new("c09.long_line_fatal", format!("a single over-long line made the parse fail ({})", err_class(e)))),
+        }
+    })();
+    let key = simkit::rng::mix(&[crate::common::fnv(&data), crate::common::fnv(&keyparts)]);
+    Outcome {
+        result,
+        nontrivial: true,
+        key,
+        info,
+    }
+}
+
+/// Giant single line (2–8 MiB), with or without a newline: bounded window, terminates.
+fn c09_giant_line() -> Outcome {
+    probe("e1.giant_line");
+    let len = range("c09.giant.len", 2 << 20, 8 << 20) as usize;
+    let mut data = b"MODULE Linux x86 000000000000000000000000000000000 giant.so\n".to_vec();
+    let prefix_lines = ch("c09.giant.prefix", 3);
+    for i in 0..prefix_lines {
+        data.extend_from_slice(format!("PUBLIC {:x} 0 p{}\n", 0x1000 + i * 16, i).as_bytes());
+    }
+    let fill = symgen::name("c09.giant.fill", 97);
+    let start = data.len();
+    data.extend_from_slice(b"PUBLIC 9000 0 ");
+    while data.len() - start < len {
+        data.extend_from_slice(&fill);
+    }
+    let ends_inside = chance("c09.giant.no_newline", 1, 2);
+    if !ends_inside {
+        data.push(b'\n');
+        data.extend_from_slice(b"PUBLIC a000 0 after\n");
+    }
+    let data = Rc::new(data);
+    let plan = match ch("c09.giant.plan", 3) {
+        0 => ChunkPlan::full(),
+        1 => ChunkPlan { segments: vec![(usize::MAX, PlanKind::Geometric)] },
+        _ => ChunkPlan { segments: vec![(usize::MAX, PlanKind::Threshold(40 * 1024))] },
+    };
+    let info = json!({"scenario": "giant line", "len": data.len(), "ends_inside_line": ends_inside, "plan": plan.describe()});
+    let mut keyparts = Vec::new();
+    let result = (|| -> simkit::Check {
+        let s = parse_sync(data.clone(), plan.clone(), Fault::None);
+        keyparts.extend(s.sizes.iter().take(64).flat_map(|x| x.to_le_bytes()));
+        simkit::ensure!(!s.budget_exceeded, "c09.read_budget", "read was called more than 2*len+64 times (the parser does not make progress)");
+        simkit::ensure!(s.max_offered <= MAX_BUFFER, "c09.buffer_cap", "a buffer larger than 160 KiB was offered to the reader");
+        simkit::ensure!(s.peak_window <= window_bound(data.len(), true), "c09.memory_window", "peak live heap while parsing a giant line exceeded 1 MiB (the parser keeps more than a fixed window of unparsed input)");
+        if let Err(e) = &s.callback_ok {
+            return Err(Violation::new("c09.callback_not_prefix", normalise(e)));
+        }
+        match &s.result {
+            Ok(t) => {
+                let want = prefix_lines as usize + if ends_inside { 0 } else { 1 };
+                simkit::ensure!(t.publics.len() == want, "c09.giant_line_table", "the records around the giant line were not kept exactly");
+                Ok(())
+            }
+            Err(e) => Err(Violation::new("c09.long_line_fatal", format!("a single over-long line made the parse fail ({})", err_class(e)))),
+        }
+    })();
+    let key = simkit::rng::mix(&[crate::common::fnv(&data[data.len().saturating_sub(4096)..]), data.len() as u64, crate::common::fnv(&keyparts)]);
+    Outcome {
+        result,
+        nontrivial: true,
+        key,
+        info,
+    }
+}
